@@ -17,6 +17,7 @@ import mpmath
 import numpy as np
 import torch
 
+import bigbatch
 import common
 import lattice
 import terms
@@ -132,7 +133,7 @@ def replay(chk, e, n, key="lattice"):
             break
     # batches are lists of samples: more rows than basis states, repeats, any order; rectangular rho(v, vp)
     r = random.Random(n)
-    li = [r.randrange(N) for _ in range(N + 1 + n % (N + 3))]
+    li = [r.randrange(N) for _ in range(N + 1 + n % (N + 3) if n % 8 else bigbatch.size(n // 8))]
     lj = [r.randrange(N) for _ in range(1 + n % (2 * N + 1))]
     lprob = st.probability(sp[li])
     lrho = st.rho(sp[li], sp[lj])
